@@ -78,6 +78,15 @@ def run(tier, seed):
                             ops.append(["maxreach"])
                 elif op[0] == "width":
                     pass          # width is C09's business
+            # queries outside the listed ones, on the same objects: SCC statistics, flow width, value helpers, conservation
+            IG = [[list(e) for e in rng.sample(u["edges"], rng.randint(0, min(2, len(u["edges"]))))] for _ in range(2)]
+            if kind == "digraph":
+                ops.insert(rng.randrange(len(ops) + 1), ["scc_stats"])
+            elif all(w > 0 for w in u["ew"]) and not (j % 3):
+                ops.insert(rng.randrange(len(ops) + 1), ["flow_width", IG[0]])
+            ops.insert(rng.randrange(len(ops) + 1), ["max_flow", IG[1] if len(IG[1]) < len(u["edges"]) else []])
+            ops.insert(rng.randrange(len(ops) + 1), ["nonzero", IG[0]])
+            ops.insert(rng.randrange(len(ops) + 1), ["conserves"])
             # antichain queries with several weight functions (incl. zero and large weights)
             wfs = [[]]
             E = [list(e) for e in u["edges"]]
